@@ -144,6 +144,10 @@ def worker(payload):
         for k, v in d["flags"].items():
             if v:
                 res[k] = res.get(k, 0) + 1
+    if o.get("structure"):
+        res["disagree"] += 1
+        res["first_bad"] = {"kind": "structure", "what": o["structure"], "cfg": cfg}
+        return res
     if bad and payload.get("bisect", True):
         res["first_bad"] = dict(bad[0], cfg=cfg, culprit=bisect(o, bad[0]["tsc"]))
     elif bad:
@@ -226,7 +230,7 @@ def run_l2c(nsims=None, name="dayc", timeout=400, mode=None, **force):
 def gen(rng, n):
     """l1-style stream (valid days; raising days as kind="malformed").  NOTE: the lines of one simulation must reach the
     driver in order (`par` lines set the parameters of the following days), so each Case carries its `par` line too."""
-    k = 0; i = 0
+    k = 0; i = 0; nstruct = 0
     while k < n:
         cfg = sim.gen_config(rng_for("cfg", "dayc-gen", rng.random(), i), method=i % 6); i += 1
         o = day.run_sim(cfg, keep=True, hook=par_hook)
@@ -234,6 +238,10 @@ def gen(rng, n):
             if k >= n: return
             yield Case("par", d["hook"], ["OK"], None); k += 1
             yield Case("dayc", day_line(d, ALL_C)[5:], ["S"] + d["exp_core"], {"cfg": cfg, "tsc": d["tsc"]}); k += 1
+        if o.get("structure"):       # the implementation's day skipped a process the model's day calls: reported as a case the model cannot match
+            yield Case("structure", o["structure"].replace(" ", "_"), ["EVERY-PROCESS-OF-THE-MODEL-DAY-IS-CALLED"], {"cfg": cfg, "what": o["structure"]}); k += 1
+            nstruct += 1
+            if nstruct >= 12: return
         for m in o["malformed"]:
             if "clock0" in m and k < n:
                 yield Case("par", m["hook"], ["OK"], None); k += 1
